@@ -267,7 +267,9 @@ class Inliner:
                 asg = ast.Assign(targets=[ast.Name(id=ret, ctx=ast.Store())], value=val)
                 ast.copy_location(asg, n)
                 if only_tail:
-                    return asg
+                    # single return at the tail of the helper: its value replaces the call, no result variable
+                    tail_value.append(val)
+                    return None
                 rs = ast.Raise(exc=ast.Name(id=exc, ctx=ast.Load()), cause=None)
                 ast.copy_location(rs, n)
                 if specialise is not None:
@@ -296,19 +298,24 @@ class Inliner:
                 truth = not truth
             return [ast_copy(x) for x in (then if truth else orelse)]
 
+        tail_value = []
         body = [R().visit(b) for b in body]
+        body = [b for b in body if b is not None]
         flat = []
         for b in body:
             flat.extend(b if isinstance(b, list) else [b])
         init = ast.Assign(targets=[ast.Name(id=ret, ctx=ast.Store())], value=ast.Constant(value=None), lineno=c.lineno, col_offset=c.col_offset)
         if only_tail:
-            block = pre + [init] + flat
+            block = pre + flat
         else:
             tr = ast.Try(body=flat or [ast.Pass()], handlers=[ast.ExceptHandler(type=ast.Name(id=exc, ctx=ast.Load()), name=None, body=[ast.Pass()])], orelse=[], finalbody=[])
             ast.copy_location(tr, s)
             block = pre + [init, tr]
         # the statement itself, with the call replaced by the result
-        result = ast.Name(id=ret, ctx=ast.Load())
+        if only_tail:
+            result = tail_value[0] if tail_value else ast.Constant(value=None)
+        else:
+            result = ast.Name(id=ret, ctx=ast.Load())
         ast.copy_location(result, c)
         if isinstance(s, ast.Expr) or specialise is not None:
             tail = []
